@@ -296,6 +296,10 @@ def tier_units(prop, tier):
         if u.get("tier", "quick") == "thorough" and tier != "thorough":
             continue
         u["harness"] = [h for h in u["harness"] if h["tier"] == "quick" or tier == "thorough"]
+        # development aid (calibrating one harness): never set by a registered command;
+        # declared obligations of the skipped harnesses then come out UNDECIDED
+        if os.environ.get("VERIF_DEV_HARNESS"):
+            u["harness"] = [h for h in u["harness"] if re.search(os.environ["VERIF_DEV_HARNESS"], h["name"])]
         out.append(u)
     return out
 
@@ -540,11 +544,22 @@ def run_kani_units(scratch, units, tier, res, logdir):
 # slice extraction (shared by standalone-Kani and Verus units)
 # --------------------------------------------------------------------------
 
-def extract_between(text, start_rx, end_rx, what, include_end=True, start_skip=0, end_extra=0):
+def extract_between(text, start_rx, end_rx, what, include_end=True, start_skip=0, end_extra=0, inner_start=None):
     """Verbatim run of lines from the unique line matching start_rx (or `start_skip`
-    lines below it) through the first following line matching end_rx."""
+    lines below it) through the first following line matching end_rx. With
+    `inner_start`, start_rx only names the enclosing item and the slice starts at
+    the first line below it that matches inner_start."""
     lines = text.split("\n")
-    s = find_anchor(text, start_rx, what + " (slice start)") + start_skip
+    s = find_anchor(text, start_rx, what + " (slice start)")
+    if inner_start:
+        irx = re.compile(inner_start)
+        for j in range(s, len(lines)):
+            if irx.search(lines[j]):
+                s = j
+                break
+        else:
+            raise Undecided("ANCHOR-LOST %s: inner slice start /%s/ not found" % (what, inner_start))
+    s += start_skip
     erx = re.compile(end_rx)
     for j in range(s, len(lines)):
         if erx.search(lines[j]):
@@ -632,7 +647,7 @@ def fill_extracts(tpl, u, files, anchors, rewrites_applied=None, rewrite_key="re
         text = files[rel].decode()
         what = u["id"] + "/" + ex["name"]
         if ex["kind"] == "slice":
-            body, l0, l1 = extract_between(text, ex["start"], ex["end"], what, not ex.get("end_exclusive", False), ex.get("start_skip", 0), ex.get("end_extra", 0))
+            body, l0, l1 = extract_between(text, ex["start"], ex["end"], what, not ex.get("end_exclusive", False), ex.get("start_skip", 0), ex.get("end_extra", 0), ex.get("inner_start"))
             anchors[u["id"]][ex["name"]] = "%s:%d-%d" % (rel, l0, l1)
         elif ex["kind"] == "fn":
             sig, body_, l0 = extract_fn(text, ex["anchor"], what)
